@@ -30,7 +30,7 @@ def _u(a, salt=''):
 
 
 def T(a):
-    """float64 tensor with the values of `a`.  About one in five 3-D/4-D tensors is handed over as a
+    """float64 tensor with the values of `a`.  About one in four 3-D/4-D tensors - and one in three 5-D/6-D band-pass tensors - is handed over as a
     NON-CONTIGUOUS view with the same values (transposed storage, or every other element of a larger
     buffer): the transforms must not care (C16), so every correspondence and oracle doubles as a
     layout-independence check."""
@@ -49,6 +49,26 @@ def T(a):
             return torch.tensor(np.ascontiguousarray(np.swapaxes(a, 0, 1)), dtype=torch.float64).transpose(0, 1)
         if r < 0.28 and a.ndim == 4:
             return torch.tensor(a, dtype=torch.float64).contiguous(memory_format=torch.channels_last)
+    if a.ndim in (5, 6) and a.size > 1:
+        # band-pass levels (N, C, bands, H, W[, 2]): the ways such a tensor reaches an inverse transform other than fresh from
+        # the forward one - the detail part `block[:, :, 1:]` of a larger coefficient block, storage with the band axis in
+        # front of the channel axis, a spatial crop, every other sample of a wider buffer.  Same values, other strides.
+        r = _u(a, 'view5')
+        t = torch.tensor(a, dtype=torch.float64)
+        if r < 0.12:
+            big = torch.zeros(a.shape[:2] + (a.shape[2] + 1,) + a.shape[3:], dtype=torch.float64)
+            big[:, :, 1:] = t
+            return big[:, :, 1:]
+        if r < 0.22:
+            return torch.tensor(np.ascontiguousarray(np.swapaxes(a, 1, 2)), dtype=torch.float64).transpose(1, 2)
+        if r < 0.30:
+            big = torch.zeros(a.shape[:3] + (a.shape[3] + 2, a.shape[4] + 1) + a.shape[5:], dtype=torch.float64)
+            big[:, :, :, 1:a.shape[3] + 1, 1:] = t
+            return big[:, :, :, 1:a.shape[3] + 1, 1:]
+        if r < 0.36 and a.ndim == 5:
+            big = torch.zeros(a.shape[:-1] + (2 * a.shape[-1],), dtype=torch.float64)
+            big[..., ::2] = t
+            return big[..., ::2]
     return torch.tensor(a, dtype=torch.float64)
 
 
